@@ -17,7 +17,7 @@
 (***************************************************************************************)
 EXTENDS TdxVerify
 
-G == INSTANCE GuestClient WITH via <- "device", dev <- [rr |-> "r0", qr |-> "r0", st |-> "s0", ol |-> "exact", buf |-> "quote"], prov <- "bytes",
+G == INSTANCE GuestClient WITH via <- "device", dev <- [rr |-> "r0", qr |-> "r0", st |-> "s0", ol |-> "exact", buf |-> "quote", len |-> "kept"], prov <- "bytes",
                                prior <- "none", pc <- "start", ioctls <- <<>>, opened <- FALSE, result <- "none"
 
 SysTransits == {"intact", "flipSigned"}            \* the two transit classes that reach verification with a parsable quote and matter to it
@@ -48,11 +48,11 @@ VerifyAbstractionHolds ==
         /\ Necessary(ww, oo) = ok
         /\ Honest(ww, oo) = ok
 
-SysDevices == [good        |-> [rr |-> "r0",  qr |-> "r0", st |-> "s0",    ol |-> "exact", buf |-> "quote"],
-               reportFails |-> [rr |-> "err", qr |-> "r0", st |-> "s0",    ol |-> "exact", buf |-> "quote"],
-               quoteFails  |-> [rr |-> "r0",  qr |-> "r8", st |-> "s0",    ol |-> "exact", buf |-> "quote"],
-               badStatus   |-> [rr |-> "r0",  qr |-> "r0", st |-> "error", ol |-> "exact", buf |-> "quote"],
-               zeroLength  |-> [rr |-> "r0",  qr |-> "r0", st |-> "s0",    ol |-> "zero",  buf |-> "quote"]]
+SysDevices == [good        |-> [rr |-> "r0",  qr |-> "r0", st |-> "s0",    ol |-> "exact", buf |-> "quote", len |-> "kept"],
+               reportFails |-> [rr |-> "err", qr |-> "r0", st |-> "s0",    ol |-> "exact", buf |-> "quote", len |-> "kept"],
+               quoteFails  |-> [rr |-> "r0",  qr |-> "r8", st |-> "s0",    ol |-> "exact", buf |-> "quote", len |-> "kept"],
+               badStatus   |-> [rr |-> "r0",  qr |-> "r0", st |-> "error", ol |-> "exact", buf |-> "quote", len |-> "kept"],
+               zeroLength  |-> [rr |-> "r0",  qr |-> "r0", st |-> "s0",    ol |-> "zero",  buf |-> "quote", len |-> "kept"]]
 GuestAbstractionHolds ==
   \A d \in DOMAIN SysDevices : /\ SysDevices[d] \in G!Devices
                                /\ G!DeviceYieldsData(SysDevices[d]) = (d = "good")
